@@ -212,7 +212,7 @@ func (m *Manager) handleUpdates(ctx context.Context, ta *target, sc gpb.GNMI_Sub
 			case <-ctx.Done():
 			case <-recvTimer.C:
 				log.Errorf("Timed out waiting to receive from %q after %v", ta.name, ta.receiveTimeout)
-				m.Reconnect(ta.name)
+				ta.forceReconnect()
 			}
 		}()
 	}
@@ -294,7 +294,7 @@ func (m *Manager) retryMonitor(ctx context.Context, ta *target) {
 		log.Infof("Finished monitoring %q", ta.name)
 		close(ta.finished)
 		// Ensure the cancelFunc for the subcontext is called.
-		m.Reconnect(ta.name)
+		ta.forceReconnect()
 	}()
 
 	e := backoff.NewExponentialBackOff()
@@ -436,11 +436,18 @@ func (m *Manager) Reconnect(name string) error {
 	if !ok {
 		return fmt.Errorf("no such target: %q", name)
 	}
+	t.forceReconnect()
+	return nil
+}
+
+// forceReconnect cancels the current subcontext of this target. Internal
+// callers use it instead of Reconnect so that a target removed and added again
+// under the same name is not affected by its predecessor.
+func (t *target) forceReconnect() {
 	t.mu.Lock()
 	if t.reconnect != nil {
 		t.reconnect()
 		t.reconnect = nil
 	}
 	t.mu.Unlock()
-	return nil
 }
